@@ -8,7 +8,8 @@ TEXT = ('Structure of the signal flow, not its arithmetic: every scratch buffer 
         'owner, inside one loop (or iterator consumer) over the owning collection, and that pass lies on every path to a return (except the silent exit of a frozen track); Mixer processes sub-tracks, then send tracks, then the main '
         'track; Track applies gate, children, sounds, effects, spatialisation, fader, sends in this order; sends are fed '
         'from the post-fader buffer; all scratch buffers are sized from internal_buffer_size and children receive '
-        'slices of at most that size. Gain values and effect outputs are not decided.')
+        'slices of at most that size. Gain values and effect outputs are not decided.'
+        ' Every effect- or send-taking method of the track builders stores what it was given.')
 TECHNIQUE = 'MIR CFG ordering / pairing / single-site rules'
 
 TRACK = 'track::sub::Track'
@@ -32,6 +33,30 @@ def run(ctx, R, tier):
     order(F, R)
     send(F, R)
     ibs(F, R)
+    builders(F, R)
+
+
+def builders(F, R):
+    """What the game asks a track builder for ends up in the track: every effect-taking method of the four track builders
+    pushes an effect into `effects` on every path, every `with_send` inserts into `sends` (decided on a view with the
+    builder's own helper methods spliced in), and `build` moves both into the track it constructs."""
+    n = 0
+    for b in F.bodies:
+        if b.krate != 'kira' or 'uilder' not in b.path or '{closure' in b.path or not b.path.startswith('track::'):
+            continue
+        nm = b.path.split('::')[-1]
+        if nm not in ('add_effect', 'with_effect', 'add_built_effect', 'with_built_effect', 'with_send'):
+            continue
+        v = F.inlined_view(b.path, depth=3, pred=lambda hp: 'uilder' in hp and hp.startswith('track::'))
+        n += 1
+        want = ('insert', '.sends') if nm == 'with_send' else ('push', '.effects')
+        sites = [x for x, t in v.calls() if (callee_path(t) or '').split('::')[-1] == want[0]
+                 and want[1] in (self_field_of_call(v, t, 0) or describe(v, t['args'][0], depth=6, at=x))]
+        ok = bool(sites) and any(all(v.dominates(x, r) for r in v.return_blocks()) for x in sites)
+        R.check(ok, 'B.C02.builder', b.path.split('::', 2)[-1],
+                '%s does not %s on every path: what was asked of the builder is silently dropped' % (b.path, 'insert the route into sends' if nm == 'with_send' else 'push the effect into effects'),
+                detail={'method': b.path}, where=b.file)
+    R.floor('B.C02.builder', n, 18)
 
 
 def hygiene(F, R):
